@@ -538,6 +538,14 @@ class Interp(EngineBase):
             self.st.assume(r.n == a.n + b.n)
             self.bag_facts(r)
             return r
+        # a union-typed entity field (Task.io: a dict of transfer volumes for workflow tasks, the number 0 for ingest tasks):
+        # arithmetic needs the number; on the dict / None reading Python raises TypeError
+        if isinstance(a, DictObj) and getattr(a, 'isnum', None) is not None:
+            self.check_or_raise(a.isnum, 'TypeError', node, 'arithmetic on a dict or None')
+            a = Sym('num', a.numval)
+        if isinstance(b, DictObj) and getattr(b, 'isnum', None) is not None:
+            self.check_or_raise(b.isnum, 'TypeError', node, 'arithmetic on a dict or None')
+            b = Sym('num', b.numval)
         for v in (a, b):
             if isinstance(v, (ListObj, PyList, TupleV, str)) or (isinstance(v, Sym) and v.kind == 'str'):
                 raise OutOfSubset(f"sequence arithmetic at line {getattr(node, 'lineno', '?')}")
